@@ -397,6 +397,32 @@ class ProgGen:
                              "detuning_on": pick(r, [0.0, 1.0, -2.0]),
                              **({"opt_off": pick(r, [0.0, -10.0, 10.0])} if r.random() < 0.5 else {})})
 
+    def _motif_dmm_twice(self, op: dict, cnt: int) -> None:
+        """On a device with reusable channels: the same DMM configured again with *other* weights, then a detuning
+        waveform on the second declaration (whose own map decides its limits)."""
+        if "dmm-twice" not in self.motifs or not self.reusable or self.pending or self.mappable:
+            return
+        r = self.rng
+        if r.random() >= self.motifs["dmm-twice"] or "weights" not in op["map"]:
+            return
+        import copy
+        op2 = copy.deepcopy(op)
+        ws = list(op["map"]["weights"])
+        how = pick(r, ["half", "flip", "one"])
+        ws2 = {"half": [r6(w * 0.5) for w in ws], "flip": [r6(1.0 - w) for w in ws],
+               "one": [1.0 if i == 0 else 0.0 for i in range(len(ws))]}[how]
+        if not any(ws2) or ws2 == ws:
+            return
+        op2["map"]["weights"] = ws2
+        self.pending.append(op2)
+        spec = self.chspecs[op["dmm_id"]]
+        name2 = f"{op['dmm_id']}_{cnt + 1}"
+        if self.dmm_wf_fn is not None:
+            wf = self.dmm_wf_fn(r, spec, ws2)
+        else:
+            wf = gen_wf(r, gen_duration(r, spec, self.big), dmm_floor(spec, ws2), 0.0)
+        self.pending.append({"op": "add_dmm_detuning", "wf": wf, "ch": name2})
+
     # -- helpers -------------------------------------------------------------
     def _style(self, op: dict) -> dict:
         if self.styles:
@@ -722,6 +748,7 @@ class ProgGen:
                                 "dmm": True, "basis": "ground-rydberg", "eom": False,
                                 "targets": list(self.qids), "weights": ws}
             self.used_ids.add(op["dmm_id"])
+            self._motif_dmm_twice(op, cnt)
         elif k == "config_slm_mask":
             self.slm = True
             self.slm_op = op
